@@ -226,6 +226,14 @@ class WSpec(object):
         self.behaviours = behaviours
 
 
+def _is_request(ev, depth=0):
+    from vt.events import Req
+    if isinstance(ev, Req):
+        return True
+    inner = getattr(ev, 'ev', None)
+    return inner is not None and depth < 3 and _is_request(inner, depth + 1)
+
+
 class World(object):
 
     def __init__(self, chooser, specs=(), arbiter_kw=None, check_delay=1.0,
@@ -382,6 +390,10 @@ class World(object):
             raise Abort('step horizon exceeded')
         if menu is not None:
             evs = menu(self)
+            if evs and not self.can_receive():
+                # the controller's stream is closed (the daemon is shutting down): no client request can reach
+                # handle_message any more, so requests are not part of the event alphabet from here on
+                evs = [e for e in evs if not _is_request(e)]
             if evs:
                 c = self.ex.choose('L', [e.label for e in evs], first_is_default=False)
                 if c > 0:
@@ -413,6 +425,16 @@ class World(object):
         loop.iterate()
         self.check_blocked()
         return 'iter'
+
+    def can_receive(self):
+        ctrl = getattr(self.arbiter, 'ctrl', None)
+        stream = getattr(ctrl, 'stream', None)
+        if ctrl is None or stream is None:
+            return True
+        try:
+            return not stream.closed()
+        except Exception:
+            return True
 
     def slot(self):
         return self.arbiter._exclusive_running_command
